@@ -67,6 +67,7 @@ func runC15(w *core.World, r *core.Report) {
 	r.Rule("R6", "the integer decoder rejects a length byte above 4")
 	r.Rule("R7", "bytecode-supplied flag indices are range-checked before State.GetFlag/MatchFlag/SetFlag/ResetFlag")
 	r.Rule("R8", "all nil-error paths of a Parse* function decode the same argument sequence")
+	r.Rule("R12", "the flag accessors' range check is sound: State.BitSize and the flag bytes are set together by the constructor only (C08 R7 invariant)")
 	r.Rule("R11", "a call in package vm through a function value loaded from a table is behind a non-nil test of that value")
 	r.Rule("R10", "ParseAll reports success only behind len(remaining) == 0")
 	r.Rule("R9", "no lossy integer narrowing of decoded operands in package vm (operand proved in range at the conversion)")
@@ -426,6 +427,7 @@ func runC15(w *core.World, r *core.Report) {
 	// ---- R10 / R11 -----------------------------------------------------------------------------
 	checkParseAllEndsAtEmpty(w, r, "R10")
 	checkTableCallsNilChecked(w, r, "R11")
+	checkFlagSizeRelation(w, r, "R12")
 }
 
 func describeSite(s core.BoundsSite) string {
